@@ -4,6 +4,7 @@ import (
 	"errors"
 	"fmt"
 	"html/template"
+	"regexp"
 	"sort"
 	"strconv"
 	"strings"
@@ -19,6 +20,10 @@ import (
 //
 //   fail() / o.Fail()   a helper / method that records that it ran and returns a sentinel error
 //                       -> if it ran: err != nil, errors.Is(err, sentinel), output == ""
+//   failV() failE() failA(..) failB() {..} (failO().Name) (failN().Name) (failO().Echo(..)) (o.FailO().Name) ...
+//                       the same failing helper in the other shapes a helper call can have: a usable value / object / nil
+//                       pointer next to the error, the error as only result, with arguments, with a block, with a
+//                       field / method / index access chained to the call -> same demand
 //   failU() / o.FailU() / failD()
 //                       a helper / method whose error WRAPS (failU, o.FailU) or IS (failD) a *plush.ErrUnknownIdentifier:
 //                       a failed helper call, not "an unknown identifier used as a condition / operand"
@@ -53,8 +58,17 @@ func (r *c05Rec) fail(err error) (string, error) {
 	return "", err
 }
 
+// note records err as the error the instrumented helper returns (the first one counts)
+func (r *c05Rec) note(err error) error {
+	if r.err == nil {
+		r.err = err
+	}
+	return err
+}
+
 type c05Obj struct {
 	Name string
+	Tags []string
 	rec  *c05Rec
 }
 
@@ -62,6 +76,9 @@ func (o *c05Obj) Get(i int) int          { return i }
 func (o *c05Obj) Echo(s string) string   { return s }
 func (o *c05Obj) Fail() (string, error)  { return o.rec.fail(c05Sentinel) }
 func (o *c05Obj) FailU() (string, error) { return o.rec.fail(c05WrappedU) }
+
+// FailO: a method that fails but hands back a usable value next to the error
+func (o *c05Obj) FailO() (*c05Obj, error) { return o, o.rec.note(c05Sentinel) }
 
 type c05It struct{ pos, end int }
 
@@ -112,6 +129,21 @@ func c05Env(partials map[string]string, rec *c05Rec) map[string]interface{} {
 		"fail":  func() (string, error) { return rec.fail(c05Sentinel) },
 		"failU": func() (string, error) { return rec.fail(c05WrappedU) },
 		"failD": func() (string, error) { return rec.fail(c05SentinelU) },
+		// failing helpers of the other shapes a helper can have: a usable (non-zero) value next to the error, a usable
+		// object / a nil pointer next to the error (so that something can be chained to the call), an error as the only
+		// result, arguments, a block that is rendered before the helper fails
+		"failV": func() (string, error) { return "c05-value-returned-with-the-error", rec.note(c05Sentinel) },
+		"failO": func() (*c05Obj, error) {
+			return &c05Obj{Name: "c05-field-of-the-value-returned-with-the-error", Tags: []string{"c05-tag"}, rec: rec}, rec.note(c05Sentinel)
+		},
+		"failN": func() (*c05Obj, error) { return nil, rec.note(c05Sentinel) },
+		"failE": func() error { return rec.note(c05Sentinel) },
+		"failA": func(n int, s string) (string, error) { return s, rec.note(c05Sentinel) },
+		"failB": func(h plush.HelperContext) (template.HTML, error) {
+			b, _ := h.Block()
+			return template.HTML(b), rec.note(c05Sentinel)
+		},
+		"failUO": func() (*c05Obj, error) { return &c05Obj{Name: "c05-field", rec: rec}, rec.note(c05WrappedU) },
 		"partialFeeder": func(name string) (string, error) {
 			if p, ok := partials[name]; ok {
 				return p, nil
@@ -312,12 +344,14 @@ func c05Verdict(check string, o Obs, ran error, ref *Obs) string {
 // expression, statement, block or partial body, innermost first. It returns the smaller case and the
 // label of the edge below that frame (which operand / condition / block lost the error) — the family.
 // The whole program is the last candidate, so a result always exists for a reproducible violation.
-func (c *c05Oracle) shrink(cs c05Case, kind string) (c05Case, Obs, string) {
+func (c *c05Oracle) shrink(cs c05Case, kind string) (c05Case, Obs, string, string) {
 	s := c.site
 	if s == nil {
-		return cs, Obs{}, ""
+		return cs, Obs{}, "", kind
 	}
 	// violates: does the frame f (with its statement list reduced to parts, if given), rendered on its own, show the violation?
+	// (the instrument alone: a violation of any kind — the call itself is then where the error is lost, whatever the frames
+	// around it make of the value it hands up instead)
 	violates := func(f *c05N, alone bool) (string, map[string]string, Obs, bool) {
 		t, p := c.frameText(f, alone, c.instr, cs)
 		if cs.check != "ran-implies-error" {
@@ -331,7 +365,11 @@ func (c *c05Oracle) shrink(cs c05Case, kind string) (c05Case, Obs, string) {
 		if o.Kind() == "PANIC" || o.Kind() == "HANG" {
 			return t, p, o, false
 		}
-		return t, p, o, c05Verdict(cs.check, o, ran, nil) == kind
+		v := c05Verdict(cs.check, o, ran, nil)
+		if alone && v != "" {
+			kind = v
+		}
+		return t, p, o, v == kind
 	}
 	prev := ""
 	for j := len(s.anc) - 1; j >= 0; j-- {
@@ -371,9 +409,9 @@ func (c *c05Oracle) shrink(cs c05Case, kind string) (c05Case, Obs, string) {
 				}
 			}
 		}
-		return c05Case{check: cs.check, tmpl: t, partials: p}, o, label
+		return c05Case{check: cs.check, tmpl: t, partials: p}, o, label, kind
 	}
-	return cs, Obs{}, ""
+	return cs, Obs{}, "", kind
 }
 
 // c05StmtList: a node whose parts are whole statements (the program, a block, a partial body) — not syntax fragments
@@ -489,7 +527,8 @@ func (c *c05Oracle) report(cs c05Case, kind string, o Obs) {
 			c.rep.Tag("violations-beyond-the-first-12-of-a-position-class(not-shrunk,not-listed)")
 			return
 		}
-		sc, so, label := c.shrink(cs, kind)
+		sc, so, label, sk := c.shrink(cs, kind)
+		kind = sk
 		if label == "" {
 			label = "whole-program"
 			so = o
@@ -611,6 +650,35 @@ func c05Mini() []*c05N {
 		stmt(`<%= partial("pg") %>`, &c05N{ctx: "partial-body", partial: "pg", parts: []interface{}{"<b><%= ", withLayout(`{"layout": "l"}`), " %></b>"}}),
 		stmt(`<% let contentType = "application/javascript" %><%= partial("p.html") %>`, outTag("partial-body", "p.html")),
 	)
+	// multi-step positions: a contentFor block rendered by a contentOf that has a default block / data / both, that stands in
+	// a silent tag, a partial, a layout, a block helper's block or a loop; a contentFor that replaces an earlier one; the
+	// default block and the data of a contentOf of a name nothing is stored under
+	cfDef := func() *c05N {
+		return &c05N{parts: []interface{}{`<% contentFor("c") { %>`, outTag("contentFor-block", ""), "<% } %>"}}
+	}
+	fixed := func(partial, text string) *c05N { return &c05N{partial: partial, parts: []interface{}{text}} }
+	dflt := func() *c05N {
+		return &c05N{ctx: "helper-block", parts: []interface{}{"<%= ", c05E("out", "s2"), " %>"}}
+	}
+	data := func() *c05N { return c05E("arg-builtin", `{"a": `, c05E("hash-value", "n1"), "}") }
+	out = append(out,
+		stmt(cfDef(), "<%= ", c05E("out", `contentOf("c") { %>`, dflt(), "<% }"), " %>"),
+		stmt(cfDef(), "<%= ", c05E("out", `contentOf("c", `, data(), `) { %>`, dflt(), "<% }"), " %>"),
+		stmt(cfDef(), "<%= ", c05E("out", `contentOf("c", `, data(), `)`), " %>"),
+		stmt(cfDef(), "<% ", c05E("silent", `contentOf("c") { %>`, dflt(), "<% }"), " %>"),
+		stmt(cfDef(), "<% let a = ", c05E("let-value", `contentOf("c") { %>`, dflt(), "<% }"), " %><%= a %>"),
+		stmt(`<% contentFor("c") { %>first<% } %>`, cfDef(), `<%= contentOf("c") %>`),
+		stmt(`<% contentFor("c") { %>first<% } %>`, cfDef(), `<%= contentOf("c") { %>d<% } %>`),
+		stmt(cfDef(), `<%= contentOf("c") %><%= contentOf("c") { %>d<% } %>`),
+		stmt(cfDef(), `<%= partial("pc") %>`, fixed("pc", `<i><%= contentOf("c") %></i>`)),
+		stmt(cfDef(), `<%= partial("pc") %>`, fixed("pc", `<i><%= contentOf("c") { %>d<% } %></i>`)),
+		stmt(cfDef(), `<%= partial("pc", {"layout": "lc"}) %>`, fixed("pc", "<i>i</i>"), fixed("lc", `<%= contentOf("c") { %>d<% } %><%= yield %>`)),
+		stmt(cfDef(), `<%= blk() { %><%= contentOf("c") { %>d<% } %><% } %>`),
+		stmt(cfDef(), `<%= for (v) in xs { %><%= contentOf("c", {"a": v}) { %>d<% } %><% } %>`),
+		stmt(cfDef(), `<% if (contentOf("c") { %>d<% }) { %>x<% } %>`),
+		stmt("<%= ", c05E("out", `contentOf("nd") { %>`, dflt(), "<% }"), " %>"),
+		stmt("<%= ", c05E("out", `contentOf("nd", `, data(), `) { %>`, dflt(), "<% }"), " %>"),
+	)
 	// a helper that renders nested template code (partial / block helper / contentOf of a contentFor block) standing
 	// directly at each tolerant position: a failure inside it is a failed helper call
 	type nested struct {
@@ -621,6 +689,7 @@ func c05Mini() []*c05N {
 		{"", func(role string) *c05N { return c05E(role, `partial("p")`, outTag("partial-body", "p")) }},
 		{"", func(role string) *c05N { return c05E(role, "blk() { %>", outTag("helper-block", ""), "<% }") }},
 		{"cf", func(role string) *c05N { return c05E(role, `contentOf("c")`) }},
+		{"cf", func(role string) *c05N { return c05E(role, `contentOf("c") { %>d<% }`) }},
 	}
 	for _, f := range forms {
 		f := f
@@ -652,11 +721,29 @@ func c05Mini() []*c05N {
 	return out
 }
 
-var c05FailInstr = []string{"fail()", "o.Fail()"}
+// the failing helper, in every shape a helper call can take: plain / method; ("", err) / (usable value, err) / (nil, err) /
+// err alone; with arguments; with a block; and with a field, method or index access chained to the call (f().Name) — the
+// chained forms are parenthesised, plush's parser takes everything after the dot for the chained expression.
+// The first two are the short ones: a violation that any helper shows is shrunk with one of them.
+var c05FailInstr = []string{"fail()", "o.Fail()", "failV()", "(failO().Name)", "failE()", "(failN().Name)", `failA(n1, "c05-arg")`,
+	`(failO().Echo("c05-echo"))`, "(o.FailO().Name)", "failB() { %>c05-block<% }", "(failO().Tags[0])", "(failN().Get(1))"}
+
+// c05Shape: the instrument without its arguments / block, for the distribution counters
+func c05Shape(in string) string {
+	if strings.HasPrefix(in, "(") && strings.HasSuffix(in, ")") {
+		in = in[1 : len(in)-1]
+	}
+	if i := strings.Index(in, " {"); i >= 0 {
+		in = in[:i] + " {block}"
+	}
+	return c05ArgsRe.ReplaceAllString(in, "()")
+}
+
+var c05ArgsRe = regexp.MustCompile(`\([^()]*\)`)
 
 // helpers that fail with an error that wraps / is an unknown-identifier error (what a helper rendering nested code returns
 // when that code uses an undefined name): no frame may take that for "an unknown identifier used as a condition / operand"
-var c05FailUInstr = []string{"failU()", "o.FailU()", "failD()"}
+var c05FailUInstr = []string{"failU()", "o.FailU()", "failD()", "(failUO().Name)"}
 
 // division by zero, index out of bounds, operator on mismatched kinds, missing field / method
 var c05OpInstr = []string{"(1 / 0)", "xs[9]", "(s1 - 1)", "o.Nope"}
@@ -687,14 +774,26 @@ func (c *c05Oracle) base(root *c05N, idx int, mini bool) {
 			return t, p
 		}
 		c.site = s
-		// (1) the failing helper
-		c.instr = c05FailInstr[(idx+si)%len(c05FailInstr)]
+		// (1) the failing helper, plain
+		c.instr = c05FailInstr[(idx+si)%2]
 		t, p := variant(c.instr)
 		if !c.runCase(c05Case{check: "ran-implies-error", tmpl: t, partials: p}) {
 			continue
 		}
 		rep.Tag("position " + c05RoleClass(role))
 		rep.Tag("inside " + ctx)
+		// (1a) the failing helper in its other shapes (value next to the error, error alone, arguments, block, something
+		// chained to the call): all of them at every position of the minimal programs, one (rotating) at every 2nd position of a random program
+		for k, in := range c05FailInstr[2:] {
+			if !mini && ((idx+si)%2 != 0 || k != (idx+si)/2%(len(c05FailInstr)-2)) {
+				continue
+			}
+			c.instr = in
+			t, p = variant(c.instr)
+			if c.runCase(c05Case{check: "ran-implies-error", tmpl: t, partials: p}) {
+				rep.Tag("helper shape " + c05Shape(in))
+			}
+		}
 		// (1b) the failing helper whose error wraps / is an unknown-identifier error: at every position of the minimal
 		// programs; in random programs at every position at or below a tolerant frame and at every 4th other one
 		if mini || direct || above != "" || (idx+si)%4 == 0 {
@@ -730,7 +829,7 @@ func init() {
 	oracles["C05"] = func(cfg Config) []*Report {
 		rep := NewReport("C05", "C05", cfg)
 		c := &c05Oracle{rep: rep}
-		rep.Rule = "base programs: " + strconv.Itoa(len(c05Mini())) + " fixed minimal ones (one per operator x 4 surroundings, one per position class, partial with layout (failure in the partial / in the layout / one partial further down), each tolerant position x {partial, block helper, contentOf of a contentFor block} standing directly there) + random well-formed programs that evaluate without error (text, output/silent tags, let/assign/index-write, if/else-if/else, for over slice/map/iterator/helper result with break/continue, block helpers incl. htmlEscape and contentOf's default block, contentFor+contentOf, partial with data / with a layout partial / under a javascript content type, user fn definition+call, return; helpers that render nested code (partial, block helper + block, contentOf) also as operands: if/else-if condition, operand of ! == != && ||, array element, argument, printed value); for EVERY expression position of a base program (operand of each of the 13 binary operators and of !, condition, index/indexed value/assigned value, array/hash element, argument of Go/variadic/built-in/block helper, method or user function, let/assign/return value, loop iterable; inside branch, loop, helper block, contentFor block, partial, layout and fn bodies) one variant per instrument: failing helper (fail()/o.Fail() alternating), and where it ran: a failing helper whose error wraps / is an unknown-identifier error (failU()/o.FailU()/failD(); every position at or below a tolerant frame, every 4th other one), a failing operation ((1 / 0) / xs[9] / (s1 - 1) / o.Nope) and an unknown identifier; non-trivial = the instrument was evaluated; distinct by case text"
+		rep.Rule = "base programs: " + strconv.Itoa(len(c05Mini())) + " fixed minimal ones (one per operator x 4 surroundings, one per position class, partial with layout (failure in the partial / in the layout / one partial further down), a contentFor block rendered by a contentOf with a default block / data / both, in a silent tag, let value, condition, partial, layout, helper block or loop, after an earlier contentFor of the same name; default block and data of a contentOf of an undefined name; each tolerant position x {partial, block helper, contentOf of a contentFor block without / with a default block} standing directly there) + random well-formed programs that evaluate without error (text, output/silent tags, let/assign/index-write, if/else-if/else, for over slice/map/iterator/helper result with break/continue, block helpers incl. htmlEscape and contentOf's default block (name undefined / defined up front), contentFor+contentOf (plain / with data / with a default block), partial with data / with a layout partial / under a javascript content type, user fn definition+call, return; helpers that render nested code (partial, block helper + block, contentOf) also as operands: if/else-if condition, operand of ! == != && ||, array element, argument, printed value); for EVERY expression position of a base program (operand of each of the 13 binary operators and of !, condition, index/indexed value/assigned value, array/hash element, argument of Go/variadic/built-in/block helper, method or user function, let/assign/return value, loop iterable; inside branch, loop, helper block, contentFor block, partial, layout and fn bodies) one variant per instrument: failing helper (fail()/o.Fail() alternating), and where it ran: the failing helper in its other shapes (non-zero value next to the error, error as the only result, arguments, a block rendered before it fails, and a field / method / index access chained to the call on a usable object or a nil pointer: (failO().Name), (failN().Name), (failO().Echo(..)), (o.FailO().Name), (failO().Tags[0]), (failN().Get(1)); all shapes at every position of the minimal programs, one rotating shape at every 2nd position of a random one), a failing helper whose error wraps / is an unknown-identifier error (failU()/o.FailU()/failD()/(failUO().Name); every position at or below a tolerant frame, every 4th other one), a failing operation ((1 / 0) / xs[9] / (s1 - 1) / o.Nope) and an unknown identifier; non-trivial = the instrument was evaluated; distinct by case text"
 		if cfg.Arg != "" {
 			cs, err := c05ParseCase(cfg.Arg)
 			if err != nil {
@@ -745,6 +844,7 @@ func init() {
 			"an unknown identifier nested below (not directly at) a condition or an operand of ! == != && || — e.g. if (f(undef)) — is not checked either way: the statement does not say whether the tolerance reaches through intermediate frames",
 			"panics/hangs of a variant are C04's subject and are skipped here",
 			"a helper that fails because the template code it renders (partial, block, contentFor block) uses an unknown identifier in a non-tolerated position is a failed helper call: Render must fail even when that helper call itself stands as a condition or operand of ! == != && ||",
+			"a helper that returns a usable value together with its error has failed all the same: whatever is chained to the call or done with the value, Render must fail with that error",
 			"a violation is reported on the innermost enclosing frame (instrument alone, expression, statement, block, partial body, whole program) that shows it when rendered on its own; the family id names the edge below that frame (which operand / condition / block lost the error); at most 12 violations per (check, kind, position role) and chunk are shrunk and listed")
 		for i, b := range c05Mini() {
 			c.base(b, i, true)
